@@ -86,7 +86,7 @@ def __matching__(text: str) -> int:
     return -1
 
 
-__SPECIAL_TOKENS = " ()"
+__SPECIAL_TOKENS = " ()'"
 
 
 def __next_token__(text: str) -> Tuple[str, int, int]:
@@ -141,7 +141,7 @@ def auto_type(el: Union[Dict[str, str], str]) -> Union[Dict[str, Type], Type]:
         return {k: auto_type(v) for k, v in el.items()}
     # String part
     stack = []
-    text = el
+    text = el.strip()
     last_infix = 0
     infix_stack = []
     or_flag = -1
